@@ -51,6 +51,8 @@ var installers = []func(dst, src *secp256k1.Scalar){
 	func(dst, src *secp256k1.Scalar) { dst.Subtract(dst).Add(src) },
 	func(dst, src *secp256k1.Scalar) { _ = dst.CSelect(^uint64(0), dst, src) },
 	func(dst, src *secp256k1.Scalar) { copy(dst.S[:], src.S[:]) },
+	func(dst, src *secp256k1.Scalar) { *dst = *src }, // Go-level struct assignment
+	func(dst, src *secp256k1.Scalar) { z := new(secp256k1.Scalar); z.Add(src); dst.Set(z) }, // through a zero-value scalar
 }
 
 // NumInstallers is the number of object-history recipes.
